@@ -77,15 +77,37 @@ impl Gen<'_> {
         if depth < self.max_depth && self.rng.chance(0.3) {
             // a macro: single-step body or pipeline body
             let single = self.rng.chance(0.35);
-            let steps = if single {
+            let mut steps = if single {
                 vec![self.step(depth + 1, true)]
             } else {
                 let n = 2 + self.rng.below(3);
                 (0..n).map(|_| self.step(depth + 1, true)).collect()
             };
             let name = format!("t:m{}", self.counter);
+            // a macro with arguments: one step of the body takes its values from the invocation
+            // (`$p`, and `$q(default)`); the AST holds the step with the values filled in
+            let parametrised = self.rng.chance(0.4);
+            // (values and parameter names unique to this macro: nothing of an enclosing invocation
+            // can be mistaken for them)
+            let nn = self.counter;
+            let (pv, qv) = (1000 + nn as i64, -(2000 + nn as i64));
+            if parametrised {
+                let mut ps = Step {
+                    body: Body::Elem(format!("helmert x={pv} y={qv}")),
+                    inv: false,
+                    omit_fwd: false,
+                    omit_inv: false,
+                };
+                self.modifiers(&mut ps, true);
+                if single {
+                    steps = vec![ps];
+                } else {
+                    let at = self.rng.below(steps.len() + 1);
+                    steps.insert(at, ps);
+                }
+            }
             self.counter += 1;
-            let text = if single {
+            let mut text = if single {
                 let mut pick = self.rng.clone();
                 let t = render_step(&steps[0], &mut pick, false).1;
                 *self.rng = pick;
@@ -96,8 +118,16 @@ impl Gen<'_> {
                 *self.rng = pick;
                 t
             };
-            self.resources.push((name.clone(), text));
-            s.body = Body::Macro { name, steps, single };
+            let mut invocation = name.clone();
+            if parametrised {
+                text = text.replace(&format!("x={pv}"), &format!("x=$p{nn}")).replace(&format!("y={qv}"), &format!("y=$q{nn}({qv})"));
+                invocation += &format!(" p{nn}={pv}");
+                if self.rng.chance(0.5) {
+                    invocation += &format!(" q{nn}={qv}");
+                }
+            }
+            self.resources.push((name, text));
+            s.body = Body::Macro { name: invocation, steps, single };
         } else {
             s.body = Body::Elem(elementary(self.rng));
         }
